@@ -18,4 +18,4 @@ for id in "$@"; do
   if cargo test --offline --test seed_demo > $out.demo_without 2>&1; then echo "DEMO_WITHOUT_PATCH=pass" >> $out; else echo "DEMO_WITHOUT_PATCH=fail" >> $out; fi
   rm -f tests/seed_demo.rs $out.suite $out.demo_with $out.demo_without
 done
-echo ALLDONE > /tmp/.confirm3_$(basename $wt)
+echo ALLDONE > /tmp/.confirm4_$(basename $wt)
